@@ -466,6 +466,30 @@ plan('C17', jobs=_c17,
      design_ref='DESIGN.md section 3, C17')
 
 
+def _c20(tier):
+    jobs = [
+        J('C20', 'dbg/serde', 'dbg-serde', 'eng_serde', '', 8, q(tier, 40_000, 1_500_000)),
+        J('C20', 'rel/serde', 'rel-serde', 'eng_serde', '', 8, q(tier, 120_000, 6_000_000)),
+    ]
+    if tier == 'thorough':
+        jobs.append(J('C20', 'miri/serde', 'miri-serde', 'eng_serde', '', 8, 600, light=True, timeout=7200))
+    return jobs
+
+
+plan('C20', jobs=_c20,
+     rule='A case is one container state pushed through one of: the recording serializer, or a decode (replay of the recorded stream / bincode standard / bincode legacy) into a target of capacity M. States come from random insert/remove histories (so the internal slot order varies, incl. empty and full), for Map<u32,u32,N>, Map<u8,i64,N>, Map<String,u32,N>, Map<i64,bool,N>, Map<u32,String,N>, Map<String,String,N>, Map<bool,u8,N>, Set<u32,N>, Set<String,N>, Set<u8,N>, Set<i64,N> with source capacities N in {0,1,3,4,5,8,16}; targets M = N and three more capacities per type (M = len, len < M < N, M > N); decodes into M < len are not attempted. Non-trivial: the container is non-empty; distinct by (types, N, keys in slot order).',
+     required=['map-serialize:empty', 'map-serialize:partial', 'map-serialize:full', 'map-decode:M=len', 'map-decode:M=N', 'map-decode:M>N', 'map-decode:len<M<N',
+               'set-serialize:empty', 'set-serialize:partial', 'set-serialize:full', 'set-decode:M=len', 'set-decode:M=N', 'set-decode:M>N'],
+     assumptions=['serde 1.0.219 and bincode 2.0.1 from the offline registry are correct',
+                  'the recording Serializer / replaying Deserializer of the harness implement the serde data model for maps and sequences of scalars and strings',
+                  'only the executions listed under coverage were observed'],
+     title='serde round trip',
+     technique='runtime monitoring: recording serializer (announced vs emitted entry count read off the event log), replaying deserializer into several target capacities, bincode round trip; equality and entry-by-entry comparison with the original',
+     level_text='Exploration (feature serde): every container state is serialized into a recording serializer whose log yields the announced length, the number of emitted keys/values/elements and the emitted entries (compared with len() and with an independent iteration); the recorded stream and two bincode encodings are decoded into targets of several capacities >= len and compared with the original by == both ways and entry by entry.',
+     level_note='Only scalar and String elements; human-readable formats are not exercised. Decoding into a too-small target is outside the property.',
+     design_ref='DESIGN.md section 3, C20')
+
+
 def G(prop, label, cmd, control_cmd, tdir, timeout=1800):
     return dict(prop=prop, label=label, gate=True, cmd=cmd, control_cmd=control_cmd, tdir=tdir, timeout=timeout, variant='gate', cost=50)
 
